@@ -346,3 +346,39 @@ Proof.
       unfold all_names. cbn [flat_map]. rewrite app_nil_r, <- Hf.
       unfold names_of. rewrite map_app. apply in_or_app. left. exact HinA.
 Qed.
+
+(* ---- functools.partial with bound positionals only (C19) ---- *)
+Lemma sig_partial_pos_params s n pobj :
+  match sig_partial s n [] pobj, mask s n [] nohide0 with
+  | Ok r1, Ok r2 => params r1 = params r2
+  | Err e1, Err e2 => e1 = e2
+  | _, _ => False
+  end.
+Proof.
+  unfold sig_partial, mask, mask_gen.
+  cbn [h_args h_kwargs h_varargs h_varkwargs nohide0 map orb].
+  destruct (Nat.eqb n 0).
+  - cbn [bind mask_names k_pok k_va k_kwo k_src]. unfold apply_params.
+    cbn [flatten posargs pokargs varargs kwoargs varkwargs].
+    destruct (validate _); reflexivity.
+  - destruct (Nat.ltb (length (posargs (sort_params s) ++ pokargs (sort_params s))) n
+              && negb (isSome (varargs (sort_params s)))); [reflexivity|].
+    cbn [bind mask_names k_pok k_va k_kwo k_src]. unfold apply_params.
+    cbn [flatten posargs pokargs varargs kwoargs varkwargs].
+    destruct (validate _); reflexivity.
+Qed.
+
+Theorem partial_positional_exact s n pobj :
+  valid_sig (params s) = true -> n <> 0%nat ->
+  match sig_partial s n [] pobj with
+  | Ok r => forall c, noncolliding c (params r) [params s] = true ->
+                      accepts (params r) c = accepts (params s) (partial_call n [] c)
+  | Err e => e = ValueErr /\ forall c, accepts (params s) (partial_call n [] c) = false
+  end.
+Proof.
+  intros Hv Hn. pose proof (sig_partial_pos_params s n pobj) as E.
+  pose proof (mask_positional_exact s n Hv Hn) as M.
+  destruct (sig_partial s n [] pobj) as [r1|e1], (mask s n [] nohide0) as [r2|e2]; try contradiction.
+  - rewrite E. exact M.
+  - subst e1. exact M.
+Qed.
